@@ -354,6 +354,7 @@ Proof.
                  --- intros m0 B C. injection B as <-. cbn in C. congruence.
                  --- intros Hw. rewrite EM in G3. destruct (wk_inv_none_some _ _ (Some m') (G3 Hw)) as [_ W]. apply (W k); auto.
               ** unfold gmd. destruct (gget g k) as [|d mds|d mds|] eqn:E; simp; rewrite ?E; cbn [ghost_inv] in *; auto.
+                 --- congruence.
                  --- destruct X as [[m0 [B [C _]]]|[B _]]; congruence.
                  --- unfold live_inv in *. simp. rewrite EM in X. destruct X as [X1 [X2 [X3 X4]]].
                      repeat split; auto; [apply mds_eq_putopt; auto|]. right. split; auto.
@@ -362,7 +363,7 @@ Proof.
                      assert (NW : won (wpc s) k = false).
                      { destruct (won (wpc s) k) eqn:W; auto. rewrite (Y6 eq_refl) in HU. cbn in HU.
                        rewrite N.eqb_refl in HU. discriminate. }
-                     unfold flushing. simp. exists (nxt s); eexists. split; [reflexivity|]. split; [reflexivity|].
+                     unfold flushing. simp. exists (nxt s); eexists. simp. split; [reflexivity|]. split; [reflexivity|].
                      rewrite wpos_off by auto. split.
                      +++ unfold data_inv, disk_data. cbn [f_dd]. exists e; auto.
                      +++ intros y. cbn [f_dirty]. unfold m'. cbn [m_mds m_set_mds]. destruct (N.eq_dec x y) as [<-|NY].
@@ -381,6 +382,7 @@ Proof.
                  --- intros m0 B C. injection B as <-. cbn in C. destruct (G2 m EM C) as [? [? ?]]. auto.
                  --- intros Hw. rewrite EM in G3. apply (wk_inv_none_some _ _ (Some m') (G3 Hw)).
               ** unfold gmd. destruct (gget g k) as [|d mds|d mds|] eqn:E; simp; rewrite ?E; cbn [ghost_inv] in *; auto.
+                 --- congruence.
                  --- destruct X as [[m0 [B [C [D F]]]]|[B _]]; [|congruence]. assert (m0 = m) by congruence; subst m0.
                      left. exists m'. simp. repeat split; auto. apply mds_eq_putopt; auto.
                  --- unfold live_inv in *. simp. rewrite EM in X. destruct X as [X1 [X2 [X3 X4]]].
@@ -407,4 +409,32 @@ Proof.
               eexists. split; [reflexivity|]. simp. repeat split; auto. apply mds_eq_putopt; auto.
         -- rewrite gmd_other by auto. kframe s; try apply H.
   - split; auto. destruct (gget g k); auto; destruct HP as [X|X]; auto.
-Admitted.
+Qed.
+
+Lemma inv_setmd : forall s g k x v, Inv s g -> guard s (SetMd k x v) = true ->
+  let '(s', r) := cstep s (SetMd k x v) in
+  let '(g', ok) := gstep g (SetMd k x v) r in ok = true /\ Inv s' g'.
+Proof.
+  intros s g k x v HI HG. cbn in HG. apply andb_true_iff in HG as [H1 H3].
+  apply negb_true_iff in H1. apply negb_true_iff in H3.
+  pose proof (inv_do_md s g k x (Some v) HI H1 H3) as L. cbn [cstep].
+  destruct (do_md s k x (Some v)) as [s' r]. destruct r; try tauto.
+  - destruct L as [NA L]. cbn [gstep]. unfold gmd in L. cbn [putopt] in L.
+    destruct (gget g k); try tauto; split; auto.
+  - destruct e; try tauto. destruct L as [-> L]. cbn [gstep]. split; auto.
+    destruct (gget g k); tauto.
+Qed.
+
+Lemma inv_delmd : forall s g k x, Inv s g -> guard s (DelMd k x) = true ->
+  let '(s', r) := cstep s (DelMd k x) in
+  let '(g', ok) := gstep g (DelMd k x) r in ok = true /\ Inv s' g'.
+Proof.
+  intros s g k x HI HG. cbn in HG. apply andb_true_iff in HG as [H1 H3].
+  apply negb_true_iff in H1. apply negb_true_iff in H3.
+  pose proof (inv_do_md s g k x None HI H1 H3) as L. cbn [cstep].
+  destruct (do_md s k x None) as [s' r]. destruct r; try tauto.
+  - destruct L as [NA L]. cbn [gstep]. unfold gmd in L. cbn [putopt] in L.
+    destruct (gget g k); try tauto; split; auto.
+  - destruct e; try tauto. destruct L as [-> L]. cbn [gstep]. split; auto.
+    destruct (gget g k); tauto.
+Qed.
